@@ -274,6 +274,14 @@ func checkC10(p *Program, r *Report) {
 	checkArrayBound(p, r, "C10.array-bound")
 	// "a reported hit always carries a value that was supplied at build time": the codec's round trip
 	checkCodecsAs(p, r, "C10")
+	r.Explanation += " (sign-extend) no quantity decoded from bytes is assembled in a signed type it can fill and then widened: a stored step never decodes as a negative number."
+	checkSignExtend(p, r, "C10.sign-extend")
+	{
+		prev := r.curRule
+		r.Explanation += " (capacity) a presence bitmap whose entries are ordinals is built with a capacity that covers every ordinal its readers probe: last counter-derived ordinal plus one, or the bound of the loop whose indexes are listed."
+		checkCapacity(p, r, "C10.capacity")
+		r.curRule = prev
+	}
 	{
 		var fs []*ssa.Function
 		var roots []*ssa.Function
@@ -1151,6 +1159,7 @@ func init() {
 	controlFns["C10"] = func(fx *Program, r *Report) {
 		controlNoRuneWalk(fx, r, "C10.bytes-not-runes")
 		controlArrayBound(fx, r, "C10.array-bound")
+		controlSignExtend(fx, r, "C10.sign-extend")
 	}
 }
 
